@@ -829,6 +829,51 @@ func c17Main(r *engine.Run) {
 			r.Bound(fmt.Sprintf("%d polygons with 2..4 holes of four sizes in every order (alone and as a MultiPolygon member) × 10 thresholds between the sizes: no ring vanishes unless it can collapse", len(multi)))
 		}
 	}
+	// rings of one polygon with very different segment lengths: a finely sampled shell around coarse
+	// holes and the reverse (each ring has its own gaps; none may be judged by another ring's)
+	{
+		fine := func(x0, y0, w, step int) []universe.LPt {
+			var ring []universe.LPt
+			for x := x0; x < x0+w; x += step {
+				ring = append(ring, universe.LPt{X: x, Y: y0})
+			}
+			for y := y0; y < y0+w; y += step {
+				ring = append(ring, universe.LPt{X: x0 + w, Y: y})
+			}
+			for x := x0 + w; x > x0; x -= step {
+				ring = append(ring, universe.LPt{X: x, Y: y0 + w})
+			}
+			for y := y0 + w; y > y0; y -= step {
+				ring = append(ring, universe.LPt{X: x0, Y: y})
+			}
+			return append(ring, ring[0])
+		}
+		tri := []universe.LPt{{1, 1}, {7, 1}, {1, 7}, {1, 1}}
+		polys := []geom.Polygon{
+			id.Polygon(fine(0, 0, 8, 2), tri),                                                   // fine shell, coarse hole
+			id.Polygon(sq(0, 0, 8, 8), fine(2, 2, 4, 1)),                                        // coarse shell, fine hole
+			id.Polygon(fine(0, 0, 16, 2), fine(1, 1, 4, 1), sq(8, 8, 14, 14), fine(8, 1, 4, 2)), // mixed holes, coarse one in the middle
+		}
+		var gs []geom.Geometry
+		for _, p := range polys {
+			gs = append(gs, p.AsGeometry(), withZM(p.AsGeometry(), geom.DimXYZM),
+				geom.NewMultiPolygon([]geom.Polygon{id.Polygon(fine(20, 0, 2, 1)), p}).AsGeometry(),
+				geom.NewGeometryCollection([]geom.Geometry{id.Point(universe.LPt{X: 30, Y: 30}).AsGeometry(), p.AsGeometry()}).AsGeometry())
+		}
+		for _, g := range gs {
+			if g.Validate() != nil {
+				panic("c17: mixed-sampling family member invalid: " + g.AsText())
+			}
+		}
+		r.States.Add(int64(len(gs)))
+		if r.Parallel(len(gs), func(i int) {
+			for _, d := range []float64{0.7, 1, 1.5, 2, 2.5, 3, 5, 6, 7, 8.5, 20} {
+				c17Densify(r, gs[i], d)
+			}
+		}) {
+			r.Bound(fmt.Sprintf("%d polygons whose rings are sampled at different steps (fine shell / coarse hole and the reverse, alone, with Z/M, as a member) × 11 distances around every segment length", len(gs)))
+		}
+	}
 	r.States.Add(int64(len(fragile)))
 	if r.Parallel(len(fragile), func(i int) {
 		for _, t := range []float64{0, 1, 4.9, 5, 7.5, 9.9, 10, 12, 14.9, 15, 20, 24.9, 25, 30, 60} {
